@@ -49,7 +49,7 @@ func init() {
 		ID:        "C01",
 		Level:     "model_checking",
 		Technique: "stateless model checking of the real pipeline (controlled scheduler over instrumented code, fake Postgres, simulated node): all interleavings of task steps with head growth up to a preemption bound, all single transient faults, over a bounded-exhaustive family of chains x declaration shapes x batch x concurrency; oracle = independent projection of the chain",
-		Rule: "jobs = 6 declaration shapes (log / array-log / all-indexed log / tx / receipt / trace) x chain words over block kinds {e empty, a 1 tx 1 log, b decoys (other signature, wrong topic count, other address), c 2 tx 2 logs, d tx without logs} x start in {1, 3, head} x (batch,conc): " +
+		Rule: "jobs = 7 declaration shapes (log / array-log / all-indexed log / log with string + bytes[] incl. empty values / tx / receipt / trace) x chain words over block kinds {e empty, a 1 tx 1 log, b decoys (other signature, wrong topic count, other address), c 2 tx 2 logs, d tx without logs} x start in {1, 3, head} x (batch,conc): " +
 			"quick = all 27 words of length 3 over {e,a,b} with (1,1),(3,2) and two 5-letter words with all 20 pairs in 1..5 x 1..4; thorough = all words of length 2..4 over 5 kinds with 5 pairs and seven 5-letter words with all 20 pairs. " +
 			"Per job every schedule of {task thread stepping until the final head, environment thread revealing the last two blocks in two growth operations} with <= 1 deviation (a preemption at any JSON-RPC exchange or step boundary, or a reordering of load partitions; thorough: <= 2 deviations and every step-granular interleaving for free), " +
 			"and on fault jobs every single injected RPC/SQL fault (rpc error, transport error, SQL error, connection drop) at every I/O point. An execution is non-trivial when at least one row was emitted; distinct = distinct (job, choice sequence).",
